@@ -119,13 +119,60 @@ func c17SeriesCanon(ss []c17Series) string {
 	return strings.Join(parts, ";")
 }
 
+// c17CanonModelSeries sorts the series; inside a series the samples of equal timestamp are put in value order
+// (sort.Slice in ReshuffleSeries is not stable, the model's sort is).
 func c17CanonModelSeries(s string) string {
 	if s == "-" || s == "!" {
 		return s
 	}
 	parts := strings.Split(s, ";")
+	for i, p := range parts {
+		eq := strings.IndexByte(p, '=')
+		if eq < 0 {
+			continue
+		}
+		sm := strings.Split(p[eq+1:], "|")
+		tsOf := func(x string) string { return strings.SplitN(x, ":", 2)[0] }
+		valOf := func(x string) int64 {
+			f := strings.SplitN(x, ":", 2)
+			if len(f) != 2 {
+				return 0
+			}
+			v, _ := strconv.ParseInt(f[1], 10, 64)
+			return v
+		}
+		for a := 0; a < len(sm); {
+			b := a + 1
+			for b < len(sm) && tsOf(sm[b]) == tsOf(sm[a]) {
+				b++
+			}
+			run := sm[a:b]
+			sort.Slice(run, func(x, y int) bool { return valOf(run[x]) < valOf(run[y]) })
+			a = b
+		}
+		parts[i] = p[:eq+1] + strings.Join(sm, "|")
+	}
 	sort.Strings(parts)
 	return strings.Join(parts, ";")
+}
+
+// c17KeysStr numbers the distinct label sets: fp:k,fp:k,…
+func c17KeysStr(fps []uint64, lbls map[uint64][][2]string) string {
+	if len(fps) == 0 {
+		return "-"
+	}
+	ids := map[string]int{}
+	var parts []string
+	for _, fp := range fps {
+		st := append([][2]string(nil), lbls[fp]...)
+		sort.Slice(st, func(i, j int) bool { return st[i][0] < st[j][0] })
+		k := c17LabelsStr(st)
+		if _, ok := ids[k]; !ok {
+			ids[k] = len(ids) + 1
+		}
+		parts = append(parts, fmt.Sprintf("%d:%d", fp, ids[k]))
+	}
+	return strings.Join(parts, ",")
 }
 
 func c17LabelsStr(l [][2]string) string {
@@ -182,43 +229,89 @@ func c17RunAssembly(r *h.Result, sc *fakes.Script, q storage.Querier, rows []c17
 		lstr[strconv.FormatUint(fp, 10)] = c17LabelsStr(l)
 	}
 	rep := c17AsmCase{Stream: "assemble", Rows: c17RowsStr(rows), Labels: lstr}
-	// oracle: each fingerprint once; every row exactly once in its own series, order kept; own labels
-	want := map[uint64][]model.Sample{}
-	var order []uint64
-	for _, rw := range rows {
-		if _, ok := want[rw.Fp]; !ok {
-			order = append(order, rw.Fp)
-		}
-		want[rw.Fp] = append(want[rw.Fp], model.Sample{TimestampMs: rw.Ts, Value: float64(rw.Val)})
+	// oracle: each label set once; under it exactly the rows of the fingerprints carrying it (for one fingerprint:
+	// in their order of arrival; merged fingerprints: ascending by timestamp); the series' own labels
+	keyOf := func(fp uint64) string {
+		st := append([][2]string(nil), lbls[fp]...)
+		sort.Slice(st, func(i, j int) bool { return st[i][0] < st[j][0] })
+		return c17LabelsStr(st)
 	}
-	seen := map[uint64]int{}
-	for _, s := range got {
-		seen[s.Fp]++
-		if seen[s.Fp] == 2 {
-			r.Violate("C17/assembly-fingerprint-twice", fmt.Sprintf("fingerprint %d is handed to the engine as %d series", s.Fp, 2), rep)
-		}
-		w, ok := want[s.Fp]
+	type grp struct {
+		fps     []uint64
+		samples []model.Sample
+	}
+	want := map[string]*grp{}
+	var order []string
+	for _, rw := range rows {
+		k := keyOf(rw.Fp)
+		g, ok := want[k]
 		if !ok {
-			r.Violate("C17/assembly-foreign-series", fmt.Sprintf("series %d has no row", s.Fp), rep)
+			g = &grp{}
+			want[k] = g
+			order = append(order, k)
+		}
+		known := false
+		for _, f := range g.fps {
+			if f == rw.Fp {
+				known = true
+			}
+		}
+		if !known {
+			g.fps = append(g.fps, rw.Fp)
+		}
+		g.samples = append(g.samples, model.Sample{TimestampMs: rw.Ts, Value: float64(rw.Val)})
+	}
+	bag := func(x []model.Sample) string {
+		y := append([]model.Sample(nil), x...)
+		sort.Slice(y, func(i, j int) bool {
+			if y[i].TimestampMs != y[j].TimestampMs {
+				return y[i].TimestampMs < y[j].TimestampMs
+			}
+			return y[i].Value < y[j].Value
+		})
+		return fmt.Sprint(y)
+	}
+	seen := map[string]int{}
+	for _, s := range got {
+		var st [][2]string
+		for _, l := range s.Labels {
+			st = append(st, [2]string{l.Name, l.Value})
+		}
+		k := c17LabelsStr(st)
+		seen[k]++
+		if seen[k] == 2 {
+			r.Violate("C17/assembly-labelset-twice", fmt.Sprintf("label set {%s} is handed to the engine as %d series", k, 2), rep)
 			continue
 		}
-		if seen[s.Fp] == 1 && fmt.Sprint(w) != fmt.Sprint(s.Samples) {
-			r.Violate("C17/assembly-samples-differ", fmt.Sprintf("series %d holds %v, its rows are %v", s.Fp, s.Samples, w), rep)
+		g, ok := want[k]
+		if !ok {
+			if _, has := lbls[s.Fp]; has {
+				r.Violate("C17/assembly-foreign-labels", fmt.Sprintf("series %d carries labels {%s}, stored {%s}", s.Fp, k, keyOf(s.Fp)), rep)
+			} else {
+				r.Violate("C17/assembly-foreign-series", fmt.Sprintf("series %d {%s} has no row", s.Fp, k), rep)
+			}
+			continue
 		}
-		// own labels, sorted by name
-		stored := append([][2]string(nil), lbls[s.Fp]...)
-		sort.Slice(stored, func(i, j int) bool { return stored[i][0] < stored[j][0] })
-		var wl labels.Labels
-		for _, kv := range stored {
-			wl = append(wl, labels.Label{Name: kv[0], Value: kv[1]})
+		if keyOf(s.Fp) != k {
+			r.Violate("C17/assembly-foreign-labels", fmt.Sprintf("series %d carries labels {%s}, stored {%s}", s.Fp, k, keyOf(s.Fp)), rep)
 		}
-		if !labels.Equal(wl, s.Labels) {
-			r.Violate("C17/assembly-foreign-labels", fmt.Sprintf("series %d carries labels %v, stored %v", s.Fp, s.Labels, wl), rep)
+		switch {
+		case len(g.fps) == 1 && fmt.Sprint(g.samples) != fmt.Sprint(s.Samples):
+			r.Violate("C17/assembly-samples-differ", fmt.Sprintf("series %d holds %v, its rows are %v", s.Fp, s.Samples, g.samples), rep)
+		case len(g.fps) > 1 && bag(g.samples) != bag(s.Samples):
+			r.Violate("C17/assembly-merged-samples-differ", fmt.Sprintf("label set {%s} (fingerprints %v) holds %v, the rows are %v", k, g.fps, s.Samples, g.samples), rep)
+		case len(g.fps) > 1:
+			for i := 1; i < len(s.Samples); i++ {
+				if s.Samples[i].TimestampMs < s.Samples[i-1].TimestampMs {
+					r.Violate("C17/assembly-merged-not-ascending", fmt.Sprintf("label set {%s}: merged samples %v are not ascending", k, s.Samples), rep)
+					break
+				}
+			}
 		}
 	}
-	for _, fp := range order {
-		if seen[fp] == 0 {
-			r.Violate("C17/assembly-series-lost", fmt.Sprintf("fingerprint %d has rows but no series", fp), rep)
+	for _, k := range order {
+		if seen[k] == 0 {
+			r.Violate("C17/assembly-series-lost", fmt.Sprintf("label set {%s} has rows but no series", k), rep)
 		}
 	}
 	return canon, nil
@@ -302,8 +395,19 @@ func c17Assembly(r *h.Result, rng *h.Rng, n int) error {
 		var rows []c17Row
 		unsortedTs := rng.Chance(10)
 		val := int64(0)
-		for _, fp := range fps {
+		dupSets := len(fps) >= 2 && rng.Chance(15)
+		for i, fp := range fps {
 			lbls[fp] = c17GenLabels(rng, fp)
+			if dupSets && i > 0 && rng.Chance(50) {
+				// the same label set stored under another fingerprint (stored order may differ)
+				src := lbls[fps[rng.Intn(i)]]
+				cp := append([][2]string(nil), src...)
+				for a := len(cp) - 1; a > 0; a-- {
+					b := rng.Intn(a + 1)
+					cp[a], cp[b] = cp[b], cp[a]
+				}
+				lbls[fp] = cp
+			}
 			ns := rng.Range(1, 8)
 			ts := int64(rng.Range(-3, 50))
 			for k := 0; k < ns; k++ {
@@ -321,8 +425,11 @@ func c17Assembly(r *h.Result, rng *h.Rng, n int) error {
 			return err
 		}
 		rs := c17RowsStr(rows)
-		ops = append(ops, "c17assemble "+rs)
+		ops = append(ops, "c17select "+rs+" "+c17KeysStr(fps, lbls))
 		impl = append(impl, out)
+		if dupSets {
+			r.Count("assemble:label-set-under-two-fingerprints")
+		}
 		lstr := map[string]string{}
 		for fp, l := range lbls {
 			lstr[strconv.FormatUint(fp, 10)] = c17LabelsStr(l)
@@ -349,7 +456,7 @@ func c17Assembly(r *h.Result, rng *h.Rng, n int) error {
 		return err
 	}
 	for i := range ops {
-		if m := c17CanonModelSeries(model[i]); m != impl[i] {
+		if m := c17CanonModelSeries(model[i]); m != c17CanonModelSeries(impl[i]) {
 			r.Disagree("assemble", ops[i], impl[i], m, cases[i])
 		}
 	}
@@ -394,12 +501,21 @@ func init() {
 			return err
 		}
 		r.Case("replay", true)
-		m, err := h.Model([]string{"c17assemble " + c.Rows})
+		var fps []uint64
+		seenFp := map[uint64]bool{}
+		for _, rw := range rows {
+			if !seenFp[rw.Fp] {
+				seenFp[rw.Fp] = true
+				fps = append(fps, rw.Fp)
+			}
+		}
+		op := "c17select " + c.Rows + " " + c17KeysStr(fps, lbls)
+		m, err := h.Model([]string{op})
 		if err != nil {
 			return err
 		}
-		if c17CanonModelSeries(m[0]) != out {
-			r.Disagree("assemble", "c17assemble "+c.Rows, out, c17CanonModelSeries(m[0]), c)
+		if c17CanonModelSeries(m[0]) != c17CanonModelSeries(out) {
+			r.Disagree("assemble", op, out, c17CanonModelSeries(m[0]), c)
 		}
 		return nil
 	}
